@@ -255,7 +255,7 @@ func countLines(src []byte) int {
 // observe runs the real parser on src and packages one (run ...).
 func observe(entry string, src []byte) sexp.Node {
 	toks, eof, _ := scanTokens(src)
-	var tree, errs sexp.Node
+	var tree, errs, posm sexp.Node
 	if entry == "value" {
 		v, es := parser.ParseValue(src)
 		if v == nil {
@@ -263,19 +263,25 @@ func observe(entry string, src []byte) sexp.Node {
 		} else {
 			tree = wValue(v)
 		}
+		posm = pmValue(v)
 		errs = wErrs(es)
 	} else {
 		d, es := parser.ParseDocument(src)
 		tree = wDocument(d)
+		posm = pmDocument(d)
 		errs = wErrs(es)
 	}
-	return sexp.T("run", sexp.T("lines", sexp.Int(countLines(src))), sexp.T("toks", toks), eof, sexp.T("obs", tree, errs), sexp.T("src", sexp.Bytes(src)))
+	return sexp.T("run", sexp.T("lines", sexp.Int(countLines(src))), sexp.T("toks", toks), eof, sexp.T("obs", tree, errs), sexp.T("src", sexp.Bytes(src)), sexp.T("posm", posm))
 }
+
+// fromBytesLimit: source texts up to this many bytes are also run through the composed model from
+// their bytes (the extracted scanner model costs about 5 microseconds per byte); set per tier in main.
+var fromBytesLimit = 512
 
 func mkCase(entry, family string, expect sexp.Node, srcs ...[]byte) sexp.Node {
 	runs := []sexp.Node{sexp.Sym("runs")}
 	for _, s := range srcs {
 		runs = append(runs, observe(entry, s))
 	}
-	return sexp.T("case", sexp.T("entry", sexp.Sym(entry)), sexp.T("family", sexp.Sym(family)), sexp.L(runs...), sexp.T("expect", expect))
+	return sexp.T("case", sexp.T("entry", sexp.Sym(entry)), sexp.T("family", sexp.Sym(family)), sexp.L(runs...), sexp.T("expect", expect), sexp.T("fblimit", sexp.Int(fromBytesLimit)))
 }
